@@ -79,25 +79,30 @@ SPECS = [
          calls={"self._fetch_forward": ("fetch_forward", ["Z", "Z"], "LIST")},
          assume_not_none=["ivl.start"]),
     # datetime / date / timedelta are abstract types; the arithmetic between them is a parameter.
-    # The monthly and yearly branches (`while True: try: return base_anchor.replace(..)`) are declared
-    # untranslated: reaching them is the explicit result RSkip.
+    # base_anchor.replace(year=.., month=..) raises ValueError when the day does not exist in that month:
+    # its Coq form returns an option and is only accepted as `try: return ..replace(..) except ValueError:`.
     dict(name="g_recur_safe_anchor", file="calgebra/recurrence.py", cls="RecurringPattern", func="_get_safe_anchor",
          kind="expr", res=True, ret="DT", tyvars=["DT", "DATE", "TD"],
          types={"DT": "DT", "DATE": "DATE", "TD": "TD", "FREQ": "freq"}, enums=FREQ,
          params=[("self_freq", "FREQ"), ("self_interval", "Z"), ("self_anchor_timestamp", "OZ"), ("self_epoch", "DT"),
                  ("dt_fromtimestamp", "Z -> DT"), ("dt_make", "Z -> Z -> Z -> DT"), ("dt_date", "DT -> DATE"),
                  ("date_sub", "DATE -> DATE -> TD"), ("td_days", "TD -> Z"), ("td_of_days", "Z -> TD"),
-                 ("td_of_weeks", "Z -> TD"), ("dt_add", "DT -> TD -> DT"), ("start_dt", "DT")],
+                 ("td_of_weeks", "Z -> TD"), ("dt_add", "DT -> TD -> DT"), ("dt_year", "DT -> Z"),
+                 ("dt_month", "DT -> Z"), ("dt_replace_ym", "DT -> Z -> Z -> option DT"),
+                 ("dt_replace_y", "DT -> Z -> option DT"), ("start_dt", "DT")],
          selfattrs={"freq": ("self_freq", "FREQ"), "interval": ("self_interval", "Z"),
                     "anchor_timestamp": ("self_anchor_timestamp", "OZ"), "_epoch": ("self_epoch", "DT")},
          calls={"datetime.fromtimestamp": dict(coq="dt_fromtimestamp", args=["Z"], fixed={"tz": "self.zone"}, ret="DT"),
                 "datetime": dict(coq="dt_make", args=["Z", "Z", "Z"], fixed={"tzinfo": "self.zone"}, ret="DT"),
                 "timedelta": [dict(coq="td_of_days", args=[], kw=[("days", "Z")], ret="TD"),
                               dict(coq="td_of_weeks", args=[], kw=[("weeks", "Z")], ret="TD")]},
-         methods={("DT", "date"): dict(coq="dt_date", args=[], ret="DATE")},
-         attrs={("TD", "days"): ("td_days", "Z")},
-         binops={("DATE", "-", "DATE"): ("date_sub", "TD"), ("DT", "+", "TD"): ("dt_add", "DT")},
-         skip_branches=["self.freq == 'monthly'", "self.freq == 'yearly'"]),
+         methods={("DT", "date"): dict(coq="dt_date", args=[], ret="DATE"),
+                  ("DT", "replace"): [dict(coq="dt_replace_ym", args=[], kw=[("year", "Z"), ("month", "Z")],
+                                           ret="O:DT", raises="ValueError"),
+                                      dict(coq="dt_replace_y", args=[], kw=[("year", "Z")],
+                                           ret="O:DT", raises="ValueError")]},
+         attrs={("TD", "days"): ("td_days", "Z"), ("DT", "year"): ("dt_year", "Z"), ("DT", "month"): ("dt_month", "Z")},
+         binops={("DATE", "-", "DATE"): ("date_sub", "TD"), ("DT", "+", "TD"): ("dt_add", "DT")}),
     # ---- cache.py.  self._sink (a MemoryTimeline holding only static intervals) is the state variable
     # self_sink : its SortedList, with the library models sl_add / sl_remove / fetch_static of Model/.
     dict(name="g_cache_purge_sink", file="calgebra/cache.py", cls="CachedTimeline", func="_purge_sink", kind="proc",
